@@ -14,6 +14,7 @@ import QbiceVerif.Lemmas.TinyLfuLock
 import QbiceVerif.Lemmas.TinyLfuWitness
 import QbiceVerif.Lemmas.TinyLfuPollFix
 import QbiceVerif.Lemmas.TinyLfuAtomic
+import QbiceVerif.Lemmas.TinyLfuUnpinSeed
 
 namespace QbiceVerif.C16
 open QbiceVerif.TinyLfu
@@ -174,6 +175,86 @@ theorem bounded_poll_partial {cfg : Cfg σ} {sk : σ} {ops : List Op} {c : Cache
     (hpm : cfg.protectedCap < cfg.mainLimit) (h : run cfg (Cache.init sk) ops = .ok c) :
     c.core.st.length ≤ cfg.windowCap + cfg.mainLimit + c.core.lru.pinned.length + cfg.batch :=
   bound_region (run_inv hpm h (init_inv cfg sk))
+
+/-- `bounded_notify` with the messages actually buffered in place of the batch size: in every reachable state
+`resident ≤ window capacity + main capacity + currently pinned residents + |write buffer|` (the write buffer never
+holds more than one batch, `regions_within_capacity`, which gives `bounded_notify` back).  This is the bound the
+harness's oracle applies to every `Notify` history that follows the protocol (signatures `bound-notify-buffered…`
+and, at a quiescent point, `unevictable-residue…`). -/
+theorem bounded_notify_buffered {cfg : Cfg σ} {sk : σ} {ops : List Op} {c : Cache σ}
+    (hpm : cfg.protectedCap < cfg.mainLimit) (hpoll : cfg.poll = false) (htok : ∀ k v, cfg.tok k v = k)
+    (hq : ∀ op, op ∈ ops → ∀ t, op ≠ .unpin t)
+    (h : run cfg (Cache.init sk) ops = .ok c) :
+    c.core.st.length ≤ cfg.windowCap + cfg.mainLimit + pinnedNow cfg c.pins c.core.st + c.wbuf.length := by
+  have hi := run_inv hpm h (init_inv cfg sk)
+  have hn := run_ninv htok hpm hpoll hq h (init_inv cfg sk) (by intro k hk; simp [Cache.init] at hk)
+  exact bound_notify_buffered htok hi hn
+
+/-- "Every resident unpinned entry is evictable": `Notify`, protocol followed — whenever a maintenance pass has just
+run (no message buffered) and no resident entry is pinned, the cache is within its capacity: nothing unpinned
+survives a pass beyond what the regions hold. -/
+theorem bounded_notify_quiescent {cfg : Cfg σ} {sk : σ} {ops : List Op} {c : Cache σ}
+    (hpm : cfg.protectedCap < cfg.mainLimit) (hpoll : cfg.poll = false) (htok : ∀ k v, cfg.tok k v = k)
+    (hq : ∀ op, op ∈ ops → ∀ t, op ≠ .unpin t)
+    (h : run cfg (Cache.init sk) ops = .ok c) (hw : c.wbuf = []) (hp : pinnedNow cfg c.pins c.core.st = 0) :
+    c.core.st.length ≤ cfg.windowCap + cfg.mainLimit := by
+  have := bounded_notify_buffered hpm hpoll htok hq h
+  rw [hw, hp] at this
+  simpa using this
+
+/-- "Every resident entry is tracked by the policy": after ANY history, under either strategy, any listener and any
+sketch, a resident key is in one of the four regions of the policy or its `Insert` message is still in the write
+buffer.  (The field `CInv.track` of the global invariant `Inv`, Lemmas/TinyLfuInv, unfolded by
+`TinyLfu.resident_tracked`.)  This is the invariant that `Policy::unpin`'s "only when the storage confirmed the
+removal" condition keeps and that the seeded variant breaks, see `unpin_forgetting_unconfirmed_leaks`. -/
+theorem resident_tracked {cfg : Cfg σ} {sk : σ} {ops : List Op} {c : Cache σ} {k v : Nat}
+    (hpm : cfg.protectedCap < cfg.mainLimit) (h : run cfg (Cache.init sk) ops = .ok c)
+    (hk : sGet c.core.st k = some v) :
+    k ∈ c.core.lru.window ∨ k ∈ c.core.lru.probation ∨ k ∈ c.core.lru.prot ∨ k ∈ c.core.lru.pinned ∨
+      WMsg.insert k ∈ c.wbuf :=
+  QbiceVerif.TinyLfu.resident_tracked (run_inv hpm h (init_inv cfg sk)) hk
+
+/-! ### `Policy::unpin` must keep a key whose removal the storage refused
+
+The model's `unpin` ends with `if r.2 then .ok { r.1 with lru := r.1.lru.remove k } else .ok r.1` — the key leaves
+the policy's lists only when the removal closure confirmed the removal (`if remove(unpin) { self.lru.remove(unpin); }`
+in policy.rs).  `runV forget` (Lemmas/TinyLfuUnpinSeed) is the model with a toggle: `runV false = run`
+(`runV_false`), `runV true` drops the key unconditionally (the seeded change
+`/verif/seeded/C16-notify-unpin-forgets-entry`). -/
+
+/-- Witness (exact sketch, capacity 1, `Notify`, protocol followed; `repinHistory`: key 0 written pinned, parked in
+the Pinned region, flushed, re-written BEFORE the maintenance pass that processes its `Unpinned` message, flushed
+again, two more passes): with the unconditional variant key 0 is still resident at the end with its last value,
+although nothing is pinned, no message is buffered, and key 0 is in no region — `resident_tracked` fails for it, no
+later message can ever evict it — and 3 entries are resident in a cache of capacity 2: `bounded_notify_quiescent`
+(and `bounded_notify_buffered`) fail.  Every repetition with a fresh key leaks one more entry. -/
+theorem unpin_forgetting_unconfirmed_leaks :
+    (match runV true (Cfg.real 1 false true (fun k _ => k)) (Cache.real 1) repinHistory with
+     | .ok c => decide (sGet c.core.st 0 = some 2 ∧ trackedB c 0 = false ∧ c.pins = [] ∧ c.wbuf = [] ∧
+          pinnedNow (Cfg.real 1 false true (fun k _ => k)) c.pins c.core.st = 0 ∧
+          c.core.st.length = 3 ∧ (capsOf 1).1 + (capsOf 1).2.2 = 2)
+     | .error _ => false) = true := by
+  decide +kernel
+
+/-- …and the code as it is (toggle off = the model, `runV_false`) on the same history: the refused key stays in the
+Pinned region, its second `Unpinned` message evicts it, and the cache ends within its capacity. -/
+theorem unpin_confirmed_only_no_leak :
+    (match run (Cfg.real 1 false true (fun k _ => k)) (Cache.real 1) repinHistory with
+     | .ok c => decide (sGet c.core.st 0 = none ∧ c.pins = [] ∧ c.wbuf = [] ∧ c.core.st.length = 2)
+     | .error _ => false) = true := by
+  decide +kernel
+
+/-- …while the re-pinned entry is NOT evicted by the pass that processes the stale notification (either variant:
+the storage refuses).  Just before the second flush (the first 75 operations), the stale `Unpinned(0)` processed:
+with the code as it is key 0 is resident with the re-written value, pinned, and tracked in the Pinned region; with
+the variant it is resident and pinned but already tracked nowhere. -/
+theorem unpin_unconfirmed_keeps_tracking :
+    (match run (Cfg.real 1 false true (fun k _ => k)) (Cache.real 1) (repinHistory.take 75),
+           runV true (Cfg.real 1 false true (fun k _ => k)) (Cache.real 1) (repinHistory.take 75) with
+     | .ok c, .ok c' => decide (sGet c.core.st 0 = some 2 ∧ 0 ∈ c.pins ∧ 0 ∈ c.core.lru.pinned ∧ WMsg.unpinned 0 ∉ c.wbuf ∧
+          sGet c'.core.st 0 = some 2 ∧ 0 ∈ c'.pins ∧ trackedB c' 0 = false)
+     | _, _ => false) = true := by
+  decide +kernel
 
 /-- The structural invariant behind the bounds, in every reachable state: regions duplicate-free and
 disjoint, `window ≤ window capacity`, `probation + protected ≤ main capacity`,
